@@ -107,6 +107,15 @@ def short_circuit(rep, R):
               instance={"fixture": "visit_or_flag / visit_bitor_flag / rewrite_until_stable", "flagged": where})
 
 
+def swar(rep, R):
+    import lexer_rules
+    found = {b.npath.split("::")[-1]: (bad, err) for b, bad, err in lexer_rules.swar_scanners(prog(), "pasfmt_canary::")}
+    loose, exact = found.get("digits_swar_loose"), found.get("digits_swar_exact")
+    ok = loose is not None and exact is not None and loose[1] is None and exact[1] is None and loose[0] == [0x2A, 0x2B, 0x2C, 0x2D, 0x2E, 0x2F] and exact[0] == []
+    rep.check(ok, R, "fixture:word-at-a-time-digit-scan", "the word-at-a-time rule does not find the loose nibble trick of the fixture (or flags the exact one): %s" % {k: v for k, v in found.items()},
+              instance={"fixture": "digits_swar_loose / digits_swar_exact", "loose_accepts_also": [chr(v) for v in (loose[0] if loose else [])]})
+
+
 CANARIES = {
     "C01": lambda rep: trait_impls(rep, "C01.c"),
     "C04": lambda rep: (panic_and_progress(rep, "C04.b", "C04.a"), counter_arith(rep, "C04.g")),
